@@ -150,7 +150,7 @@ def build_world(cfg):
     s = make_scheduler(cfg)
     sign = 1.0 if cfg["mode"] == "min" else -1.0
     perms = {int(k): tuple(v) for k, v in cfg["perms"].items()}
-    table = table_from_perms(cfg["T"], max_t, perms, sign)
+    table = table_from_perms(cfg["T"], max_t, perms, sign, zero_rank=cfg.get("zero_rank"))
     if cfg["mode"] == "max":
         table = [[0.5 + 0.01 * x for x in row] for row in table]
     nb = 1 if cfg["sched"] == "shb" else min(cfg["brackets"], len(levels) + 1)
